@@ -20,7 +20,7 @@ RULE = ("npy input (files written by write_npy, 1-3 axes): first-chunk length en
         "(Builder::verif_build_from_reader) with first-chunk length exhaustive (small files) and later chunks random down "
         "to 1 byte: decoded sites must equal the whole-buffer run; failures injected at sampled offsets must not yield a "
         "successful run; the real binary fed through a pipe with a delayed, split first write. non-trivial = schedule with a "
-        "first chunk shorter than the format's magic/header; injected failures of every io::ErrorKind (UnexpectedEof included), also beyond the 64 KiB detection prefix; BGZF streams cut inside a block through the binary; sinks that are full (accept zero bytes) rather than failing, at every offset, npy and text; chunk schedules with the compression and / or the format preset by the caller")
+        "first chunk shorter than the format's magic/header; injected failures of every io::ErrorKind (UnexpectedEof included), also beyond the 64 KiB detection prefix; BGZF streams cut inside a block through the binary; sinks that are full (accept zero bytes) rather than failing, at every offset, npy and text; chunk schedules with the compression and / or the format preset by the caller; sources that return Interrupted once before every delivery")
 
 
 def fmt(l):
@@ -63,7 +63,17 @@ def check(rep, tier, seed):
         hdr = d + b" " * pad + b"\n"
         return (b[:6] + bytes([major, 0]) + struct.pack("<I", len(hdr)) + hdr + b[10 + hl:]).hex()
     hexes += [(sh, vals, reversion(hx, major)) for sh, vals, hx in hexes[:3] for major in (2, 3)]
-    for sh, vals, hx in hexes:
+    # ... and files of other element types (hand-built as numpy lays them out): one byte per element (no refill is enough for
+    # "all of them"), two bytes, big-endian
+    others = []          # read only: the writer produces float64 files
+
+    def other_npy(descr, code, shape, ints):
+        dct = ("{'descr': '%s', 'fortran_order': False, 'shape': (%s), }" % (descr, "".join("%d, " % k for k in shape).rstrip() if len(shape) > 1 else "%d," % shape[0])).encode()
+        hdr = dct + b" " * ((-(10 + len(dct) + 1)) % 64) + b"\n"
+        return (b"\x93NUMPY\x01\x00" + struct.pack("<H", len(hdr)) + hdr + b"".join(struct.pack(code, v) for v in ints)).hex()
+    for descr, code, shape, ints in (("|u1", "B", [2, 3], [0, 1, 2, 200, 255, 7]), ("|i1", "b", [5], [0, 1, 127, -128, -1]), (">i2", ">h", [3], [1, -2, 300]), ("<u4", "<I", [2, 2], [1, 2, 3, 4000000000])):
+        others.append((shape, [struct.unpack("<Q", struct.pack("<d", float(v)))[0] for v in ints], other_npy(descr, code, shape, ints)))
+    for sh, vals, hx in hexes + others:
         L = len(hx) // 2
         for sc in schedules(L, rng, exhaustive_first=True):
             cases.append("cnpy %s %s -" % (hx, fmt(sc)))
@@ -77,7 +87,7 @@ def check(rep, tier, seed):
     for c, o in zip(dict.fromkeys(cases), outs[False]):
         t = c.split()
         hx = t[1]
-        sh, vals = next((s, v) for s, v, h in hexes if h == hx)
+        sh, vals = next((s, v) for s, v, h in hexes + others if h == hx)
         want = "OK %s %s" % (fmt(sh), ",".join(tok(v) for v in vals)) if t[3] == "-" else "ERR"
         if o != want:
             rep.fail(kind="property-oracle", cls="chunking:npy-read:" + ("schedule" if t[3] == "-" else "fault"), case=c[:300], observed=o[:200], expected=want[:200],
@@ -187,6 +197,10 @@ def check(rep, tier, seed):
         scheds += [[1] * L, [rng.randrange(1, 4) for _ in range(L)]]
         for sc in scheds:
             gcases.append("cgeno %s %s - %d" % (path, fmt(sc), rng.choice([1, 2, 4]))); gmeta.append((name, "schedule", sc[:1]))
+        # a read that is interrupted by a signal and retried (ErrorKind::Interrupted once before every delivery, the end of
+        # the stream included) loses nothing: the same sites, the same clean end
+        for sc in [[], [1] * min(L, 300), [7] * 200, [4096] * 40]:
+            gcases.append("cgeno %s %s -:intr 1" % (path, fmt(sc))); gmeta.append((name, "schedule", [0] + sc[:1]))
         # the same when the caller of the library SAYS what the stream holds (compression and / or format preset instead of
         # detected): what is left to detection must still not depend on the first chunk
         comp = "bgzf" if (name.startswith("vcf.gz") or name == "bcf") else "plain"
@@ -207,6 +221,8 @@ def check(rep, tier, seed):
     for name, data in list(bigfiles.items()) + [("big-vcf.gz-stored", stored)]:
         path = os.path.join(d, "in." + name)
         L = len(data)
+        for sc in [[], [4099] * 200, [65536, 1, 8192]]:
+            gcases.append("cgeno %s %s -:intr 1" % (path, fmt(sc))); gmeta.append((name, "schedule", [0] + sc[:1]))
         if L < 70000:
             continue
         for f in [65536, 65537, 66000, L - 1, L - 30] + [rng.randrange(65600, L) for _ in range(10 if tier == "quick" else 60)]:
